@@ -598,6 +598,46 @@ fn c07_wal_segment_split_on_replay(dir: PathBuf) -> ScenFut<'static> {
     })
 }
 
+/// A transaction that fitted the memtable size it was committed under is the first record of
+/// its commit-log segment; the store is reopened with a smaller (valid) memtable size.
+fn c07_oversized_first_record_after_memtable_size_reduced(dir: PathBuf) -> ScenFut<'static> {
+    Box::pin(async move {
+        let mut out = vec![];
+        for small_first in [true, false] {
+            let d = dir.join(if small_first { "control" } else { "first" });
+            let cfg1 = Cfg { max_memtable_size: 1 << 20, ..base_cfg() };
+            let t = cfg1.open(&d).map_err(|e| e.to_string())?;
+            if small_first {
+                put(&t, &[(b"small", b"x")]).await?;
+            }
+            let big = vec![0x42u8; 300 * 1024];
+            put(&t, &[(b"big", &big[..])]).await?;
+            close(t).await;
+            let cfg2 = Cfg { max_memtable_size: 128 * 1024, ..base_cfg() };
+            match cfg2.open(&d) {
+                Ok(t) => {
+                    let got = get1(&t, b"big")?;
+                    close(t).await;
+                    out.push(match got {
+                        Some(v) if v == big => Ok(()),
+                        Some(v) => Err(format!("`big` comes back with {} bytes", v.len())),
+                        None => Err("`big` is missing after the reopen".to_string()),
+                    });
+                }
+                Err(e) => out.push(Err(format!("open fails: {e}"))),
+            }
+        }
+        match (&out[0], &out[1]) {
+            (Ok(()), Ok(())) => Ok(()),
+            (c, f) => Err(format!(
+                "a 300 KiB transaction committed under max_memtable_size 1 MiB, closed without flushing, reopened with max_memtable_size 128 KiB: as the second record of its commit-log segment: {}; as the first record of its segment: {}",
+                c.as_ref().err().cloned().unwrap_or_else(|| "recovered (replay grows the arena)".into()),
+                f.as_ref().err().cloned().unwrap_or_else(|| "recovered".into())
+            )),
+        }
+    })
+}
+
 fn c02_rotation_straddling_commit(dir: PathBuf) -> ScenFut<'static> {
     Box::pin(async move {
         // flush_on_close = false: whatever is only in a memtable at close must come back from the WAL
@@ -2410,6 +2450,9 @@ fn c17_restore_into_full_l0(dir: PathBuf) -> ScenFut<'static> {
             let r = rt.block_on(async move {
                 let t = std::sync::Arc::new(cfg.open(&dir.join("live")).map_err(|e| e.to_string())?);
                 put(&t, &[(b"x", b"1")]).await?;
+                // the compaction task looks at the levels once when the store opens: let that
+                // look happen before the restore, as it has in any store that has been up a while
+                tokio::time::sleep(std::time::Duration::from_millis(500)).await;
                 t.restore_from_checkpoint(&ck).map_err(|e| format!("restore: {e}"))?;
                 let tc = t.clone();
                 let c = tokio::spawn(async move { put(&tc, &[(b"after", b"restore")]).await });
@@ -3741,8 +3784,105 @@ fn c17_failed_commits_fill_queue(dir: PathBuf) -> ScenFut<'static> {
     })
 }
 
+fn c17_cancelled_commits_overflow_queue(dir: PathBuf) -> ScenFut<'static> {
+    Box::pin(async move {
+        let res = std::thread::spawn(move || -> Result<(), String> {
+            let rt = tokio::runtime::Builder::new_multi_thread().worker_threads(4).enable_all().build().map_err(|e| e.to_string())?;
+            rt.block_on(async move {
+                let t = std::sync::Arc::new(base_cfg().open(&dir).map_err(|e| e.to_string())?);
+                put(&t, &[(b"a", b"1")]).await?;
+                crate::panics::install();
+                let _ = crate::panics::drain_all();
+                let ctl = crate::e3::ctl();
+                ctl.reset();
+                let gate = ctl.arm_gate("commit.after_wal");
+                let tp = t.clone();
+                let held = tokio::spawn(async move { put(&tp, &[(b"held", b"x")]).await });
+                let g2 = gate.clone();
+                if !tokio::task::spawn_blocking(move || g2.wait_parked(5000)).await.unwrap_or(false) {
+                    gate.release();
+                    let _ = held.await;
+                    ctl.reset();
+                    return Err("harness: no commit reached commit.after_wal".into());
+                }
+                // callers that give up waiting: their commit() futures are dropped while the
+                // batches sit in the queue behind the held one
+                let mut dropped = 0usize;
+                let mut outcomes = vec![];
+                for i in 0..10 {
+                    let tf = t.clone();
+                    let k = format!("c{i}");
+                    let mut h = tokio::spawn(async move { put(&tf, &[(k.as_bytes(), b"v")]).await });
+                    match tokio::time::timeout(std::time::Duration::from_millis(60), &mut h).await {
+                        Ok(Ok(r)) => outcomes.push(if r.is_ok() { "ok".to_string() } else { "error".to_string() }),
+                        Ok(Err(e)) => {
+                            outcomes.push(if e.is_panic() { "PANIC".to_string() } else { "cancelled".to_string() });
+                            break;
+                        }
+                        Err(_) => {
+                            // the caller gives up: the commit() future is dropped where it waits
+                            h.abort();
+                            match h.await {
+                                Err(e) if e.is_panic() => {
+                                    outcomes.push("PANIC".to_string());
+                                    break;
+                                }
+                                _ => {
+                                    dropped += 1;
+                                    outcomes.push("dropped".to_string());
+                                }
+                            }
+                        }
+                    }
+                }
+                gate.release();
+                let held_result = tokio::time::timeout(std::time::Duration::from_secs(10), held).await;
+                ctl.reset();
+                let panics = crate::panics::drain_all();
+                let after = tokio::time::timeout(std::time::Duration::from_secs(10), put(&t, &[(b"z", b"9")])).await;
+                if let Ok(t) = std::sync::Arc::try_unwrap(t) {
+                    close(t).await;
+                }
+                if !panics.is_empty() || outcomes.iter().any(|o| o == "PANIC") {
+                    return Err(format!(
+                        "one commit held between WAL write and apply; behind it callers abandon their commit() calls after 60 ms: outcomes {:?}; panics: {:?}",
+                        outcomes,
+                        panics.iter().take(2).collect::<Vec<_>>()
+                    ));
+                }
+                if dropped == 0 {
+                    return Err("harness: no commit future was dropped while waiting".into());
+                }
+                match held_result {
+                    Ok(Ok(Ok(()))) => {}
+                    other => return Err(format!("the held commit did not complete normally after its release: {:?} (outcomes {:?})", other.map(|r| r.map(|x| x.is_ok())), outcomes)),
+                }
+                match after {
+                    Ok(r) => r.map_err(|e| format!("a commit after the episode failed: {e}")),
+                    Err(_) => Err(format!("a commit after the episode did not return within 10 s (outcomes {:?})", outcomes)),
+                }
+            })
+        })
+        .join()
+        .map_err(|_| "scenario thread panicked".to_string())?;
+        res
+    })
+}
+
 pub fn all() -> Vec<Scenario> {
     vec![
+        Scenario {
+            id: "C07-oversized-first-record-after-memtable-size-reduced",
+            property: "C07",
+            title: "a transaction larger than the new memtable size is the first record of its commit-log segment",
+            run: c07_oversized_first_record_after_memtable_size_reduced,
+        },
+        Scenario {
+            id: "C17-cancelled-commits-overflow-queue",
+            property: "C17",
+            title: "callers abandon more commit() calls than the queue has slots behind one commit that is slow to apply",
+            run: c17_cancelled_commits_overflow_queue,
+        },
         Scenario {
             id: "C17-failed-commits-fill-queue",
             property: "C17",
@@ -4221,7 +4361,11 @@ pub fn run_for(run: &mut Run, property: &str) -> Vec<String> {
     let mut open_failed = vec![];
     let mut results = vec![];
     crate::panics::install();
+    let only = std::env::var("VERIF_SCEN_ONLY").ok();
     for s in all().into_iter().filter(|s| s.property == property) {
+        if only.as_deref().is_some_and(|o| o != s.id) {
+            continue;
+        }
         let dir = e1::scratch_root().join(format!("scen-{}", s.id));
         // Every scenario is a bounded workload of milliseconds to a few seconds. It runs on a
         // thread of its own under a generous wall-clock watchdog; if the watchdog fires the
